@@ -37,7 +37,9 @@ def gen_body(rnd, depth=0):
 
 
 def gen_name(rnd):
-    return "".join(rnd.choice("ABCJLSabcxyz019_") for _ in range(rnd.randint(1, 12)))
+    if rnd.random() < 0.08:
+        return rnd.choice(["sys_trap0", "nop", "insn", "insn_insn", "s", "n_i_s", "_", "isync", "nsi(".strip("("), "Insn"])
+    return "".join(rnd.choice("ABCJLSabcxyzins019_") for _ in range(rnd.randint(1, 12)))
 
 
 def load_shape_ok():
